@@ -38,6 +38,9 @@ func (x *Exec) execInstr(fr *Frame, st *State, instr ssa.Instruction) {
 			x.nilCheckPlace(st, p, ins.Pos(), ins.Addr)
 		}
 		v := x.get(fr, ins.Val)
+		if g := x.guardFor(fr, st, ins.Addr); g != nil {
+			x.guardCheck(st, g, true, ins.Pos(), "write")
+		}
 		x.writeHook(fr, st, p, ins.Pos())
 		x.storePlace(st, p, x.coerce(v, elem))
 	case *ssa.UnOp:
@@ -153,6 +156,16 @@ func (x *Exec) execUnOp(fr *Frame, st *State, ins *ssa.UnOp) {
 			x.nilCheckPlace(st, p, ins.Pos(), ins.X)
 		}
 		fr.vals[ins] = x.loadPlace(st, p)
+		if g := x.guardFor(fr, st, ins.X); g != nil {
+			if _, isMap := elem.Underlying().(*types.Map); isMap {
+				// the map held by a guarded field: checked where the map is used
+				if mv, ok := fr.vals[ins].(VScalar); ok {
+					x.recordMapGuard(mv.T, g)
+				}
+			} else {
+				x.guardCheck(st, g, false, ins.Pos(), "read")
+			}
+		}
 	case token.NOT:
 		fr.vals[ins] = VScalar{Not(x.get(fr, ins.X).(VScalar).T)}
 	case token.SUB:
@@ -811,6 +824,7 @@ func (x *Exec) execLookup(fr *Frame, st *State, ins *ssa.Lookup) {
 		return
 	}
 	m := x.get(fr, ins.X).(VScalar).T
+	x.guardCheck(st, x.mapGuard(m), false, ins.Pos(), "lookup in the map")
 	key := x.keyTerm(x.get(fr, ins.Index))
 	val, present := x.mapLookup(st, ins.X.Type(), m, key)
 	mt := ins.X.Type().Underlying().(*types.Map)
@@ -880,6 +894,7 @@ func (x *Exec) mapLen(st *State, t types.Type, m Term) Term {
 
 func (x *Exec) execMapUpdate(fr *Frame, st *State, ins *ssa.MapUpdate) {
 	m := x.get(fr, ins.Map).(VScalar).T
+	x.guardCheck(st, x.mapGuard(m), true, ins.Pos(), "update of the map")
 	x.panicCheck(st, "nil", ins.Pos(), Not(Eq(m, IntLit(0))))
 	key := x.keyTerm(x.get(fr, ins.Key))
 	x.mapStore(st, ins.Map.Type(), m, key, x.get(fr, ins.Value))
@@ -896,6 +911,7 @@ func (x *Exec) execRange(fr *Frame, st *State, ins *ssa.Range) {
 	fr.vals[ins] = x.get(fr, ins.X)
 	// counting facts: iterating an unmodified map visits exactly len(m) entries
 	m := x.get(fr, ins.X).(VScalar).T
+	x.guardCheck(st, x.mapGuard(m), false, ins.Pos(), "iteration over the map")
 	dom, _, _, ks2, _ := mapNames(ins.X.Type())
 	d := x.heapGet(st, dom, ArrSort(SInt, ArrSort(ks2, SBool)))
 	st.ghost["$visited"] = VSet{empty}
